@@ -1,14 +1,16 @@
 #!/bin/bash
-# run_seeded.sh <seeded-dir-name> <check ids...> : apply the seeded change to /repo, run the quick checks, undo.
+# run_seeded.sh <seeded-dir-name> <check ids...> : apply the seeded change to a scratch worktree of /repo
+# (VERIF_REPO points the harness at it; /repo itself is not touched), run the quick checks, remove the worktree.
 set -u
-D=/verif/seeded/$1; shift
-cd /repo
-if [ -n "$(git status --porcelain --untracked-files=no)" ]; then echo "repo dirty"; exit 2; fi
-git apply $D/patch.diff || { echo "patch does not apply"; exit 2; }
+D=/verif/seeded/$1; T=$1; shift
+WT=/tmp/seedrun_$T
+git -C /repo worktree remove --force $WT 2>/dev/null
+git -C /repo worktree add -q --detach $WT HEAD || exit 2
+if ! git -C $WT apply $D/patch.diff; then echo "$T: patch does not apply"; git -C /repo worktree remove --force $WT; exit 2; fi
 cd /verif
 for c in "$@"; do
-  out=$(./check $c quick 2>&1); rc=$?
-  echo "$(basename $D) check=$c rc=$rc :: $(echo "$out" | grep -c VIOLATION) violation lines :: $(echo "$out" | tail -1)"
-  echo "$out" | grep VIOLATION | head -2
+  out=$(VERIF_REPO=$WT ./check $c quick 2>&1); rc=$?
+  echo "$T check=$c rc=$rc :: $(echo "$out" | grep -c '^VIOLATION') violation lines :: $(echo "$out" | tail -1)"
+  echo "$out" | grep '^VIOLATION' | head -2
 done
-git -C /repo checkout -- .
+git -C /repo worktree remove --force $WT
